@@ -49,6 +49,8 @@ func checkC09(r *Report, p *Program) {
 	claimsTables(r, p, "R09.17")
 	copyIfFound(r, p, "R09.18")
 	freshDecodeTargets(r, p, "R09.20")
+	operandFromTheLoop(r, p, "R09.21")
+	patchHelpersTable(r, p, "R09.22")
 	// a revision whose recorded claims changed in any way (names added OR removed) is written (shared with C01)
 	r01_revisions(r, p)
 	anyRollingTable(r, p, "R09.19")
